@@ -3,6 +3,7 @@ CONSTANTS
   Alphabet <- Alpha14
   MaxLen = 5
   StepLen = 4
+  LexLen = 4
   OptSets <- EscOptSets
 INVARIANT Inverse
 INVARIANT LexInverse
